@@ -16,7 +16,6 @@ import os
 import select
 import signal
 import stat
-import sys
 import time
 import traceback
 
@@ -39,7 +38,7 @@ META = {
         'Exhaustive over umasks; scenarios are a fixed list.'),
     'level_note': 'exhaustive: true for the umask dimension',
     'design_ref': 'DESIGN.md §5 C44',
-    'budget': {'quick': 120, 'thorough': 900},
+    'budget': {'quick': 240, 'thorough': 1200},
     'exhaustive': True,
 }
 RULE = ('case = (umask, scenario[, variant]); distinct by that tuple; '
@@ -270,7 +269,8 @@ def _child_main(spec):
     elif scen == 'run_to_completion_restart':
         asyncio.run(one_start('first'))
         os.umask(u)
-        asyncio.run(one_start('run', paused=False, to_completion=True))
+        asyncio.run(one_start('restart_run', paused=False,
+                              to_completion=True))
     else:
         raise ValueError(scen)
     return report
@@ -457,10 +457,11 @@ def finalize(merged, tier):
         'scenarios': scenarios(tier),
     }
     out = {'coverage': cov}
-    if c.get('umask_cases', 0) != n and not merged['truncated']:
+    if c.get('umask_cases', 0) != n:
         out['inconclusive'] = (
             f'only {c.get("umask_cases", 0)} of {n} (umask, scenario) '
-            'cases completed')
+            'cases completed; the sweep is claimed exhaustive'
+            + (' (budget cap hit)' if merged['truncated'] else ''))
     if c.get('scenario:run_to_completion', 0) and c.get(
             'ran_to_completion', 0) < 0.9 * c.get(
                 'scenario:run_to_completion', 0):
